@@ -42,7 +42,7 @@ func runC15(r *fw.Run) {
 	// ---- R1 collect ⇒ apply -----------------------------------------------------------------------
 	r.Rule("C15-R1", "every function that calls InputTemplate.RenderAndCollectUndefinedVariables uses one collector at all render sites and applies that collector to the same buffer on every path before the rendered bytes are used as request input (or consumes the collector itself)")
 	frozen := map[string]string{
-		"Loader.assembleMultiEntityInput": "Header/Footer of a merged multi fetch are built from the HTTP envelope and the query text only (create_multi_fetch splits the variables object out before header/footer are resolved), so their collector is always empty; per-entry variables are handled in renderEntryVariables",
+		"Loader.assembleMultiEntityInput":                  "Header/Footer of a merged multi fetch are built from the HTTP envelope and the query text only (create_multi_fetch splits the variables object out before header/footer are resolved), so their collector is always empty; per-entry variables are handled in renderEntryVariables",
 		"InputTemplate.RenderAndCollectUndefinedVariables": "the collecting primitive itself",
 	}
 	nFns := 0
